@@ -165,7 +165,19 @@ ExpApply(pol, x, e) ==
          [] pol = "ppx1"  -> [e EXCEPT !.aspath = Prep(2) \o @]
          [] pol = "rejA"  -> IF \E i \in 1..Len(e.aspath) : e.aspath[i] = 65001 THEN NoRoute ELSE e
 
+(* route-server clients (RFC 7947): each client is sent the best of the routes of the OTHER
+   clients whose AS_PATH does not contain its own AS, unchanged (no prepend, next hop, MED and
+   LOCAL_PREF as received).  Locally injected routes are not distributed to route-server clients. *)
+RsCandidates(p, x) == {r \in LocRibExpected(x) : r.src # LOCSRC /\ r.src # p /\ ~InPath(PInfo[p].as, r)}
+RsExp(b) == [v |-> b.v, src |-> b.src, aspath |-> AsPath(b), nh |-> b.src, med |-> b.med, lp |-> b.lp,
+             origid |-> "none", clist |-> 0]
+RsBetter(a, b) == AsLen(a) < AsLen(b)       \* LOCAL_PREF is kept as received but every RS route here has none
+RsExportOf(p, x) == LET S == RsCandidates(p, x) IN
+                      IF S = {} THEN NoRoute
+                      ELSE RsExp(CHOOSE a \in S : \A b \in S \ {a} : RsBetter(a, b))
+
 ExportOf(p, x) ==
+  IF Kind(p) = "rs" THEN RsExportOf(p, x) ELSE
   LET S == LocRibExpected(x) IN
     IF S = {} THEN NoRoute
     ELSE LET b == BestOf(S) IN IF MayAdvertise(b, p) THEN ExpApply(expPol, x, Exp(b, p)) ELSE NoRoute
